@@ -252,6 +252,9 @@ void reb_calculate_acceleration(struct reb_simulation* r){
                 r->N_allocated_gravity_cs = N;
             }
             struct reb_vec3d* restrict const cs = r->gravity_cs;
+            const int N_ghost_x = r->N_ghost_x;
+            const int N_ghost_y = r->N_ghost_y;
+            const int N_ghost_z = r->N_ghost_z;
 #pragma omp parallel for schedule(guided)
             for (int i=0; i<_N_real; i++){
                 particles[i].ax = 0.; 
@@ -261,6 +264,11 @@ void reb_calculate_acceleration(struct reb_simulation* r){
                 cs[i].y = 0.;
                 cs[i].z = 0.;
             }
+            // Summing over all Ghost Boxes
+            for (int gbx=-N_ghost_x; gbx<=N_ghost_x; gbx++){
+            for (int gby=-N_ghost_y; gby<=N_ghost_y; gby++){
+            for (int gbz=-N_ghost_z; gbz<=N_ghost_z; gbz++){
+            const struct reb_vec6d gb = reb_boundary_get_ghostbox(r, gbx,gby,gbz);
             // Summing over all massive particle pairs
 #ifdef OPENMP
 #pragma omp parallel for schedule(guided)
@@ -269,9 +277,9 @@ void reb_calculate_acceleration(struct reb_simulation* r){
                 if (_gravity_ignore_terms==1 && ((j==1 && i==0) || (i==1 && j==0))) continue;
                 if (_gravity_ignore_terms==2 && ((j==0 || i==0))) continue;
                 if (i==j) continue;
-                const double dx = particles[i].x - particles[j].x;
-                const double dy = particles[i].y - particles[j].y;
-                const double dz = particles[i].z - particles[j].z;
+                const double dx = (gb.x+particles[i].x) - particles[j].x;
+                const double dy = (gb.y+particles[i].y) - particles[j].y;
+                const double dz = (gb.z+particles[i].z) - particles[j].z;
                 const double r2 = dx*dx + dy*dy + dz*dz + softening2;
                 const double r = sqrt(r2);
                 const double prefact  = G/(r2*r);
@@ -305,9 +313,9 @@ void reb_calculate_acceleration(struct reb_simulation* r){
             for (int j=0; j<_N_active; j++){
                 if (_gravity_ignore_terms==1 && ((j==1 && i==0) || (i==1 && j==0))) continue;
                 if (_gravity_ignore_terms==2 && ((j==0 || i==0))) continue;
-                const double dx = particles[i].x - particles[j].x;
-                const double dy = particles[i].y - particles[j].y;
-                const double dz = particles[i].z - particles[j].z;
+                const double dx = (gb.x+particles[i].x) - particles[j].x;
+                const double dy = (gb.y+particles[i].y) - particles[j].y;
+                const double dz = (gb.z+particles[i].z) - particles[j].z;
                 const double r2 = dx*dx + dy*dy + dz*dz + softening2;
                 const double r = sqrt(r2);
                 const double prefact  = G/(r2*r);
@@ -340,9 +348,9 @@ void reb_calculate_acceleration(struct reb_simulation* r){
                 for (int i=_N_active; i<_N_real; i++){
                     if (_gravity_ignore_terms==1 && ((j==1 && i==0) || (i==1 && j==0))) continue;
                     if (_gravity_ignore_terms==2 && ((j==0 || i==0))) continue;
-                    const double dx = particles[i].x - particles[j].x;
-                    const double dy = particles[i].y - particles[j].y;
-                    const double dz = particles[i].z - particles[j].z;
+                    const double dx = (gb.x+particles[i].x) - particles[j].x;
+                    const double dy = (gb.y+particles[i].y) - particles[j].y;
+                    const double dz = (gb.z+particles[i].z) - particles[j].z;
                     const double r2 = dx*dx + dy*dy + dz*dz + softening2;
                     const double r = sqrt(r2);
                     const double prefact  = G/(r2*r);
@@ -375,9 +383,9 @@ void reb_calculate_acceleration(struct reb_simulation* r){
             for (int j=i+1; j<_N_active; j++){
                 if (_gravity_ignore_terms==1 && ((j==1 && i==0) || (i==1 && j==0))) continue;
                 if (_gravity_ignore_terms==2 && ((j==0 || i==0))) continue;
-                const double dx = particles[i].x - particles[j].x;
-                const double dy = particles[i].y - particles[j].y;
-                const double dz = particles[i].z - particles[j].z;
+                const double dx = (gb.x+particles[i].x) - particles[j].x;
+                const double dy = (gb.y+particles[i].y) - particles[j].y;
+                const double dz = (gb.z+particles[i].z) - particles[j].z;
                 const double r2 = dx*dx + dy*dy + dz*dz + softening2;
                 const double r = sqrt(r2);
                 const double prefact  = G/(r2*r);
@@ -432,9 +440,9 @@ void reb_calculate_acceleration(struct reb_simulation* r){
             for (int j=0; j<_N_active; j++){
                 if (_gravity_ignore_terms==1 && ((j==1 && i==0) || (i==1 && j==0))) continue;
                 if (_gravity_ignore_terms==2 && ((j==0 || i==0))) continue;
-                const double dx = particles[i].x - particles[j].x;
-                const double dy = particles[i].y - particles[j].y;
-                const double dz = particles[i].z - particles[j].z;
+                const double dx = (gb.x+particles[i].x) - particles[j].x;
+                const double dy = (gb.y+particles[i].y) - particles[j].y;
+                const double dz = (gb.z+particles[i].z) - particles[j].z;
                 const double r2 = dx*dx + dy*dy + dz*dz + softening2;
                 const double r = sqrt(r2);
                 const double prefact  = G/(r2*r);
@@ -484,6 +492,9 @@ void reb_calculate_acceleration(struct reb_simulation* r){
             }
             }
 #endif // OPENMP
+            }
+            }
+            }
         }
         break;
         case REB_GRAVITY_TREE:
